@@ -313,7 +313,7 @@ func lifeRunOne(w *tr.Writer, tid int, raw json.RawMessage, c *common) error {
 		cc := run.conn
 		run.mu.Unlock()
 		if cc != nil {
-			cc.Close()
+			srv.HardClose(cc)
 		}
 		time.Sleep(20 * time.Millisecond)
 		left := leakedSince(before, 600*time.Millisecond)
